@@ -122,6 +122,7 @@ class Scheduler(object):
         self.names = {}
         self.errors = {}
         self.results = {}
+        self.abort = False
 
     def _pick(self):
         cands = sorted(self.alive)
@@ -144,21 +145,27 @@ class Scheduler(object):
         tid = self.me()
         if tid is None:
             return
+        if self.abort:
+            raise SimKill('world abandoned')
         with self.cv:
             nxt = self._pick()
             if nxt != tid:
                 self.turn = nxt
                 self.cv.notify_all()
-                while self.turn != tid:
+                while self.turn != tid and not self.abort:
                     self.cv.wait()
+                if self.abort:
+                    raise SimKill('world abandoned')
 
     def _body(self, tid, fn):
         _tls.tid = tid
         _tls.depth = 0
         with self.cv:
-            while self.turn != tid:
+            while self.turn != tid and not self.abort:
                 self.cv.wait()
         try:
+            if self.abort:
+                raise SimKill('world abandoned')
             self.results[tid] = fn()
         except BaseException as e:  # noqa - recorded, judged by the oracle
             self.errors[tid] = e
@@ -180,10 +187,17 @@ class Scheduler(object):
         with self.cv:
             self.turn = self._pick()
             self.cv.notify_all()
-        for t in threads:
-            t.join(60)
-            if t.is_alive():
-                raise WorldTimeout('scheduler: thread did not finish')
+        try:
+            for t in threads:
+                t.join()          # the world's wall cap (SIGALRM in this thread) bounds the wait
+        finally:
+            if any(t.is_alive() for t in threads):
+                # the world is being abandoned: no thread of it may touch pysmi or the next world
+                self.abort = True
+                with self.cv:
+                    self.cv.notify_all()
+                for t in threads:
+                    t.join(10)
         return self.results, self.errors
 
 
@@ -853,16 +867,16 @@ def begin_run():
         for d in R.listdir(top):
             if d.startswith('run') or d.startswith('p'):
                 pid = d[3:] if d.startswith('run') else d[1:]
-                if pid.isdigit() and not os.path.exists('/proc/%s' % pid):
+                if pid.isdigit() and not os.path.exists('/proc/%d' % int(pid)):
                     R.rmtree(os.path.join(top, d), ignore_errors=True)
     except OSError:
         pass
-    os.environ['VERIF_SCRATCH_RUN'] = 'run%d' % os.getpid()
+    os.environ['VERIF_SCRATCH_RUN'] = 'run%07d' % os.getpid()
     return scratch_base()
 
 
 def end_run():
-    if os.environ.get('VERIF_SCRATCH_RUN') == 'run%d' % os.getpid():
+    if os.environ.get('VERIF_SCRATCH_RUN') == 'run%07d' % os.getpid():
         R.rmtree(scratch_base(), ignore_errors=True)
 
 
@@ -870,7 +884,7 @@ _rootn = [0]
 
 
 def new_root(tag='w'):
-    base = os.path.join(scratch_base(), 'p%d' % os.getpid())
+    base = os.path.join(scratch_base(), 'p%07d' % os.getpid())
     _rootn[0] += 1
     path = os.path.join(base, '%s%06d' % (tag, _rootn[0] % 1000000))
     if os.path.isdir(path):
@@ -884,7 +898,7 @@ def drop_root(path):
 
 
 def drop_process_scratch():
-    R.rmtree(os.path.join(scratch_base(), 'p%d' % os.getpid()), ignore_errors=True)
+    R.rmtree(os.path.join(scratch_base(), 'p%07d' % os.getpid()), ignore_errors=True)
 
 
 def snapshot(path, with_mtime=True, scrub=None):
